@@ -107,15 +107,16 @@ type Op struct {
 	FromSel []int `json:"fromsel,omitempty"`
 	// Pre: source frames are produced at set-up time by encoding Frames with the
 	// registry codec TS and nil parameters (sched mode: before any task exists).
-	Pre    bool    `json:"pre,omitempty"`
+	Pre    bool                   `json:"pre,omitempty"`
 	PreKV  map[string]interface{} `json:"prekv,omitempty"`
-	Params Params  `json:"params"`
-	Obj    int     `json:"obj,omitempty"`
-	Enc    *J2KEnc `json:"j2kenc,omitempty"`
-	Dec    *J2KDec `json:"j2kdec,omitempty"`
-	Near   int     `json:"near,omitempty"` // pkgenc args
-	Q      int     `json:"q,omitempty"`
-	Pred   int     `json:"pred,omitempty"`
+	Params Params                 `json:"params"`
+	Obj    int                    `json:"obj,omitempty"`
+	Enc    *J2KEnc                `json:"j2kenc,omitempty"`
+	Dec    *J2KDec                `json:"j2kdec,omitempty"`
+	Cut    int                    `json:"cut,omitempty"`  // low-level decode ops: drop this many bytes from the end of every source frame (torn read)
+	Near   int                    `json:"near,omitempty"` // pkgenc args
+	Q      int                    `json:"q,omitempty"`
+	Pred   int                    `json:"pred,omitempty"`
 
 	SrcFaults  []Fault `json:"srcfaults,omitempty"`
 	SinkFaults []Fault `json:"sinkfaults,omitempty"`
@@ -154,6 +155,8 @@ type Run struct {
 	AllocCap uint64 `json:"alloccap,omitempty"`
 	// WantHist asks for the per-site execution histogram (solo).
 	WantHist bool `json:"wanthist,omitempty"`
+	// SortMaps: iterate the library's hash maps in sorted key order (sched mode and its references).
+	SortMaps bool `json:"sortmaps,omitempty"`
 	// Gomaxprocs is applied by the worker at start (0 = leave).
 	Gomaxprocs int `json:"gomaxprocs,omitempty"`
 }
@@ -168,56 +171,60 @@ type SiteStat struct {
 
 // OpResult is what one operation did.
 type OpResult struct {
-	Err       bool     `json:"err"`
-	ErrText   string   `json:"errtext,omitempty"`
-	Panic     string   `json:"panic,omitempty"` // panic value text
-	PanicFn   string   `json:"panicfn,omitempty"`
-	PanicLoc  string   `json:"panicloc,omitempty"`
-	PanicKind string   `json:"panickind,omitempty"` // index|slice|divide|nil|makeslice|other|sentinel-step|sentinel-alloc
-	Stack     string   `json:"stack,omitempty"`
-	Out       [][]byte `json:"out,omitempty"` // frames the sink received, in order
-	OutMeta   []int    `json:"outmeta,omitempty"`
-	AddCalls  int      `json:"addcalls"`
-	AddAfterErr int    `json:"addaftererr,omitempty"` // AddFrame calls after the sink returned an error
-	GetCalls  int      `json:"getcalls"`
-	Fired     map[string]int `json:"fired,omitempty"`
-	SrcIntact bool     `json:"srcintact"`
-	InfoIntact bool    `json:"infointact"`
-	SinkIntact bool    `json:"sinkintact"` // retained slices unchanged at end of run
-	ParamsBefore string `json:"pbefore,omitempty"`
-	ParamsAfter  string `json:"pafter,omitempty"`
-	Steps     uint64   `json:"steps"`
-	StartStep uint64   `json:"startstep"`
-	AllocMax  uint64   `json:"allocmax,omitempty"`
-	AllocTotal uint64  `json:"alloctotal,omitempty"`
-	// Input actually consumed (for From ops) so that a reference can be built.
-	In [][]byte `json:"in,omitempty"`
+	Err          bool           `json:"err"`
+	ErrText      string         `json:"errtext,omitempty"`
+	Panic        string         `json:"panic,omitempty"` // panic value text
+	PanicFn      string         `json:"panicfn,omitempty"`
+	PanicLoc     string         `json:"panicloc,omitempty"`
+	PanicKind    string         `json:"panickind,omitempty"` // index|slice|divide|nil|makeslice|other|sentinel-step|sentinel-alloc
+	Stack        string         `json:"stack,omitempty"`
+	Out          [][]byte       `json:"out,omitempty"` // frames the sink received, in order
+	OutMeta      []int          `json:"outmeta,omitempty"`
+	AddCalls     int            `json:"addcalls"`
+	AddAfterErr  int            `json:"addaftererr,omitempty"` // AddFrame calls after the sink returned an error
+	GetCalls     int            `json:"getcalls"`
+	Fired        map[string]int `json:"fired,omitempty"`
+	SrcIntact    bool           `json:"srcintact"`
+	InfoIntact   bool           `json:"infointact"`
+	SinkIntact   bool           `json:"sinkintact"` // retained slices unchanged at end of run
+	ParamsBefore string         `json:"pbefore,omitempty"`
+	ParamsAfter  string         `json:"pafter,omitempty"`
+	Steps        uint64         `json:"steps"`
+	StartStep    uint64         `json:"startstep"`
+	AllocMax     uint64         `json:"allocmax,omitempty"`
+	AllocTotal   uint64         `json:"alloctotal,omitempty"`
+	// Input actually served to the library (after source faults) so that a
+	// fresh-world reference can be built.
+	In       [][]byte               `json:"in,omitempty"`
+	Count    int                    `json:"count,omitempty"`    // what FrameCount() reported
+	InfoSeen *Info                  `json:"infoseen,omitempty"` // corrupted FrameInfo as served
+	ParamsIn map[string]interface{} `json:"paramsin,omitempty"` // parameter values at call time
 }
 
 // Result is the output of one worker process.
 type Result struct {
-	Tasks      [][]OpResult `json:"tasks"`
-	Switches   []Sw         `json:"switches,omitempty"` // executed context switches
-	TotalSteps uint64       `json:"totalsteps"`
-	Hist       []SiteStat   `json:"hist,omitempty"`
+	Tasks        [][]OpResult      `json:"tasks"`
+	Switches     []Sw              `json:"switches,omitempty"` // executed context switches
+	TotalSteps   uint64            `json:"totalsteps"`
+	Hist         []SiteStat        `json:"hist,omitempty"`
 	SharedBefore map[string]string `json:"sharedbefore,omitempty"`
 	SharedAfter  map[string]string `json:"sharedafter,omitempty"`
-	Fatal      string       `json:"fatal,omitempty"`
+	Fatal        string            `json:"fatal,omitempty"`
 }
 
 // Replay is the self-contained replay file (DESIGN §3.7).
 type Replay struct {
-	Property  string   `json:"property"`
-	Class     string   `json:"class"`
-	Signature string   `json:"signature"`
-	Detail    string   `json:"detail,omitempty"`
-	Seed      uint64   `json:"seed"`
-	Build     string   `json:"build"` // race | plain | plain+noinstr
-	Tree      string   `json:"tree,omitempty"`
-	Run       Run      `json:"run"`
-	Reproduced string  `json:"reproduced,omitempty"`
-	MinimisedFrom string `json:"minimised_from,omitempty"`
-	Notes     []string `json:"notes,omitempty"`
+	Property      string   `json:"property"`
+	Class         string   `json:"class"`
+	Signature     string   `json:"signature"`
+	Detail        string   `json:"detail,omitempty"`
+	Seed          uint64   `json:"seed"`
+	Build         string   `json:"build"` // race | plain | plain+noinstr
+	Tree          string   `json:"tree,omitempty"`
+	Run           Run      `json:"run"`
+	Reproduced    string   `json:"reproduced,omitempty"`
+	MinimisedFrom string   `json:"minimised_from,omitempty"`
+	Notes         []string `json:"notes,omitempty"`
 }
 
 // Hash returns a stable hash of any JSON-serialisable value.
@@ -258,8 +265,8 @@ func (r *Rng) Intn(n int) int {
 	}
 	return int(r.U64() % uint64(n))
 }
-func (r *Rng) Range(lo, hi int) int { return lo + r.Intn(hi-lo+1) }
-func (r *Rng) Bool() bool           { return r.U64()&1 == 1 }
+func (r *Rng) Range(lo, hi int) int     { return lo + r.Intn(hi-lo+1) }
+func (r *Rng) Bool() bool               { return r.U64()&1 == 1 }
 func (r *Rng) Chance(num, den int) bool { return r.Intn(den) < num }
-func (r *Rng) Child(tag uint64) *Rng { return NewRng(r.U64() ^ SplitMix64(tag)) }
-func Pick[T any](r *Rng, xs []T) T  { return xs[r.Intn(len(xs))] }
+func (r *Rng) Child(tag uint64) *Rng    { return NewRng(r.U64() ^ SplitMix64(tag)) }
+func Pick[T any](r *Rng, xs []T) T      { return xs[r.Intn(len(xs))] }
